@@ -7,7 +7,7 @@ for l in open("/verif/properties.jsonl"):
     p = json.loads(l)
     if p["id"] == pid: break
 prop = "%s — %s\nStatement: %s\nScope (what it quantifies over): %s" % (p["id"], p["title"], p["statement"], p["quantifier"]["text"])
-t = open("/tmp/seed_prompt.txt").read()
+t = open("/verif/lib/seed_prompt_template.txt").read()
 t = t.replace("__WT__", "/tmp/seedwt_%s_%s" % (pid, n)).replace("__OUT__", "/tmp/seedout_%s_%s" % (pid, n))
 t = t.replace("__PROPERTY__", prop).replace("__HINT__", ("\nAdditional direction: " + hint + "\n") if hint else "")
 print(t)
